@@ -335,8 +335,29 @@ def benignFailure (s : SyncCase) (r : Rec) : Bool :=
       !(s.isParentTarget r) && (cachedDependent s r).map controllerUID == some s.parentUID
   | _, _ => false
 
+/-- one bad child blocks nothing: once the children phase of a composite sync (dynamic apply, no rolling kind) has started -
+    some child request was sent after the hook answered - every desired child that the hook was not shown as observed
+    gets its create request, whatever happened to the other children -/
+def c12Independence (s : SyncCase) : Option String :=
+  if !s.composite || s.cfg.ssa || s.cfg.anyRolling then none else
+  match s.mainHook with
+  | none => none
+  | some h =>
+    let later := s.calls.filter (fun r => r.idx > h.idx && s.isDependent r && !r.isRevision && r.verb != "get")
+    if later.isEmpty then none else
+    let observed := (flatHookObjects (s.hookChildren h)).map (·.2.2)
+    let desired := s.respChildren h
+    if desired.any (fun d => getAPIVersion d == "" || getKind d == "" || getName d == "") then none else
+    firstSome desired (fun d =>
+      if observed.any (fun o => getKind o == getKind d && apiGroup (getAPIVersion o) == apiGroup (getAPIVersion d) && getName o == getName d) then none else
+      match s.cfg.children.find? (fun c => c.kind == getKind d && c.group == apiGroup (getAPIVersion d)) with
+      | none => none
+      | some c => check (later.any (fun r => r.verb == "create" && r.resource == c.resource && r.name == getName d))
+          s!"the desired child {getKind d} {getName d} was not observed, other children were written in this sync, yet no create was sent for it")
+
 def oracleC12 (s : SyncCase) : Option String :=
   orElse (check (s.outcome != "panic") "the sync panicked") fun _ =>
+  orElse (c12Independence s) fun _ =>
   let hard := s.calls.filter (fun r => !r.isHook && !r.ok && !benignFailure s r)
   orElse (check (hard.isEmpty || s.outcome == "error")
     s!"a request failed for a non-benign reason ({(hard.map (fun r => r.verb ++ " " ++ r.name ++ " " ++ r.reason))}) but the sync did not report an error") fun _ =>
